@@ -28,6 +28,7 @@ import (
 	"sync"
 	"time"
 
+	"github.com/IrineSistiana/mosdns/v5/pkg/pool"
 	"github.com/miekg/dns"
 
 	"verif/harness/simnet"
@@ -55,14 +56,15 @@ func (s Step) flag(k string) bool {
 }
 
 type Script struct {
-	Name          string `json:"name"`
-	Steps         []Step `json:"steps"`
-	Cap           int    `json:"cap"`             // pipeline: capacity of a dialled connection
-	Queue         int    `json:"queue"`           // pipeline: MaxConcurrentQueryWhileDialing
-	DialTimeoutMs int    `json:"dial_timeout_ms"` // reuse: DialTimeout (real time)
-	NoPostCall    bool   `json:"no_post_call"`    // do not start the extra call after transport Close
-	StepWaitMs    int    `json:"step_wait_ms"`    // override of the wait for a scripted boundary event
-	ErrHow        string `json:"err_how"`         // reuse: how read errors are injected: eof | reset | short (default by index)
+	Name           string `json:"name"`
+	Steps          []Step `json:"steps"`
+	Cap            int    `json:"cap"`              // pipeline: capacity of a dialled connection
+	Queue          int    `json:"queue"`            // pipeline: MaxConcurrentQueryWhileDialing
+	DialTimeoutMs  int    `json:"dial_timeout_ms"`  // reuse: DialTimeout (real time)
+	NoPostCall     bool   `json:"no_post_call"`     // do not start the extra call after transport Close
+	StepWaitMs     int    `json:"step_wait_ms"`     // override of the wait for a scripted boundary event
+	DialIgnoresCtx bool   `json:"dial_ignores_ctx"` // the dial function ignores its context (returns a connection late)
+	ErrHow         string `json:"err_how"`          // reuse: how read errors are injected: eof | reset | short (default by index)
 }
 
 type Job struct {
@@ -425,6 +427,27 @@ func leakCheck() []string {
 		return len(last) == 0
 	})
 	return last
+}
+
+// Released buffers are poisoned, so that a use after release (e.g. a retry that re-sends a released query
+// buffer) changes the bytes the harness sees on the wire.
+func init() {
+	orig := pool.ReleaseBuf
+	pool.ReleaseBuf = func(b *[]byte) {
+		if b != nil {
+			bb := (*b)[:cap(*b)]
+			for i := range bb {
+				bb[i] = 0xDB
+			}
+		}
+		orig(b)
+	}
+}
+
+// framedQuery is what a TCP write of call c must consist of: 2-byte length + the query.
+func framedQuery(c int) []byte {
+	q := queryFor(c)
+	return append([]byte{byte(len(q) >> 8), byte(len(q))}, q...)
 }
 
 func main() {
